@@ -2,6 +2,7 @@ package main
 
 import (
 	"go/token"
+	"go/types"
 	"strings"
 
 	"golang.org/x/tools/go/ssa"
@@ -9,9 +10,9 @@ import (
 
 func init() {
 	register("C15", &propSpec{
-		technique: "static analysis: guard-atom sets of the qualification and redirect-synthesis stores (conjunct deletion/alteration is visible as a missing atom), constant tables, value flow into the redirect target, contradiction rule between TLS stripping and redirect synthesis",
+		technique: "static analysis: decision-table extraction of the qualification function by abstract evaluation of its SSA over all combinations of its 13 boolean inputs (E10), guard-atom sets of the redirect-synthesis stores, constant tables, value flow into the redirect target, contradiction rule between TLS stripping and redirect synthesis",
 		run:       runC15,
-		decided: "R1 a site is marked managed only behind every qualification conjunct (host and listen host neither loopback nor internal, scheme not http, and in QualifiesForManagedTLS: not manual unless on-demand, not self-signed, port not the literal 80, ACME e-mail not 'off', subject qualifies for a public certificate), and the loopback/internal tables contain the reserved names; " +
+		decided: "R1 a site is marked managed in exactly the cases of the documented conjunction (host and listen host neither loopback nor internal, scheme not http, and in QualifiesForManagedTLS: TLS settings and manager present, not manual unless on-demand, not self-signed, port not the literal 80, ACME e-mail not 'off', subject qualifies for a public certificate unless on-demand) — decided as the function's full decision table, in whatever form the code spells it — and the loopback/internal tables contain the reserved names; " +
 			"R2 MakeServers disables TLS exactly for sites on the HTTP port or with scheme http; " +
 			"R3 a redirect site is synthesised only for TLS-enabled sites that are not themselves plain-HTTP sites, do not opt out and have no other site on the HTTP port; its handler answers 301 to \"https://\" + request host (+ port unless default) + the request URI as received.",
 		notDecided: "which names certmagic can really certify; DNS; behaviour of http.Redirect itself.",
@@ -64,95 +65,165 @@ func returnsTrueOnlyVia(fn *ssa.Function, edges map[edge]bool, leafOK func(ssa.V
 
 func c15R1(h H) {
 	r := h.r
-	r.Rule("R1", "qualification is the full conjunction: the store TLS.Managed = true in markQualifiedForAutoHTTPS lies behind !IsLoopback(Addr.Host), !IsLoopback(ListenHost), !IsInternal(Addr.Host), !IsInternal(ListenHost), QualifiesForManagedTLS(cfg) and Scheme != \"http\"; QualifiesForManagedTLS returns true only behind !SelfSigned, Port() != \"80\" (the literal), ACMEEmail != \"off\", and mentions Manual and SubjectQualifiesForPublicCert(Host()); IsInternal's TLD table ⊇ {.example,.invalid,.test,.local}; IsLoopback tests localhost, .localhost, 127., ::1", 14)
+	r.Rule("R1", "qualification is exactly the documented conjunction, decided as a decision table: markQualifiedForAutoHTTPS (with QualifiesForManagedTLS and the SiteConfig accessors it calls) is evaluated abstractly (E10) for every combination of its 13 boolean inputs — the loopback/internal answers for Addr.Host and ListenHost, Scheme == \"http\", TLS settings and manager present, on-demand, Manual, SelfSigned, Port == \"80\" (the literal), ACMEEmail == \"off\", SubjectQualifiesForPublicCert(Host) — and TLS.Managed must end up true in exactly the specified cases; IsInternal's TLD table ⊇ {.example,.invalid,.test,.local}; IsLoopback tests localhost, .localhost, 127., ::1", 7)
+	// The qualification decision as a decision table (E10).  Inputs: the answers of the host predicates for the
+	// site's two hosts, the scheme and port literals, and the TLS settings; the store TLS.Managed = true must happen
+	// exactly under the documented conjunction, in whatever form the code spells it.
 	fn := h.fn("R1", hs, "markQualifiedForAutoHTTPS")
 	if fn != nil {
-		n := 0
-		allInstrs(fn, func(in ssa.Instruction) {
-			st, ok := in.(*ssa.Store)
-			if !ok {
-				return
+		names := []string{"IsLoopback(Addr.Host)", "IsLoopback(ListenHost)", "IsInternal(Addr.Host)", "IsInternal(ListenHost)", "Scheme==http", "TLS==nil", "Manager==nil", "OnDemand!=nil", "Manual", "SelfSigned", "Port==80", "ACMEEmail==off", "SubjectQualifies(Host)"}
+		const nb = 13
+		bad := ""
+		nrun := 0
+		siteT := fn.Params[0].Type().(*types.Slice).Elem().(*types.Pointer).Elem()
+		ptrElem := func(t types.Type) types.Type {
+			if p, ok := underlying(t).(*types.Pointer); ok {
+				return p.Elem()
 			}
-			fa, ok := st.Addr.(*ssa.FieldAddr)
-			if !ok || fieldName(fa.X.Type(), fa.Field) != "Managed" {
-				return
-			}
-			n++
-			have := map[string]bool{}
-			for _, g := range guardAtoms(fn, nil, in) {
-				if c, ok := g.Cond.(*ssa.Call); ok {
-					name := calleeName(&c.Call)
-					arg := ""
-					if len(c.Call.Args) > 0 {
-						arg, _ = fieldPath(c.Call.Args[0])
-					}
-					switch {
-					case strings.HasSuffix(name, "casket.IsLoopback") && !g.Pos:
-						have["!IsLoopback("+arg+")"] = true
-					case strings.HasSuffix(name, "casket.IsInternal") && !g.Pos:
-						have["!IsInternal("+arg+")"] = true
-					case strings.HasSuffix(name, "caskettls.QualifiesForManagedTLS") && g.Pos:
-						have["Qualifies"] = true
-					}
-				}
-				if x, eq, lit, ok := strCmp(g.Cond); ok && lit == "http" && readsField(x, "Scheme") && (eq != g.Pos) {
-					have["Scheme!=http"] = true
-				}
-			}
-			for _, need := range []string{"!IsLoopback(Addr.Host)", "!IsLoopback(ListenHost)", "!IsInternal(Addr.Host)", "!IsInternal(ListenHost)", "Qualifies", "Scheme!=http"} {
-				r.Check(have[need], "R1", "httpserver.markQualifiedForAutoHTTPS/requires:"+need, st.Pos(), "a site is marked for managed HTTPS only if "+need)
-			}
-		})
-		if n == 0 {
-			r.Unresolve("R1", "markQualifiedForAutoHTTPS: store to TLS.Managed not found")
+			return nil
 		}
-	}
-	q := h.fn("R1", tlsPkg, "QualifiesForManagedTLS")
-	if q != nil {
-		selfSigned := guardEdges(q, false, func(v ssa.Value) bool { return readsField(v, "SelfSigned") })
-		port80 := map[edge]bool{}
-		emailOff := map[edge]bool{}
-		portLeaf := func(v ssa.Value) bool { return false }
-		for _, i := range ifs(q) {
-			v, flip := stripNot(i.Cond)
-			if x, eq, lit, ok := strCmp(v); ok {
-				holdsNe := func() edge { return condEdge{i, (!eq) != flip}.edge() }
-				if lit == "80" && isInvokeOf(x, "Port") {
-					port80[holdsNe()] = true
-				}
-				if lit == "off" && readsField(x, "ACMEEmail") {
-					emailOff[holdsNe()] = true
-				}
+		for m := 0; m < 1<<nb && bad == ""; m++ {
+			b := func(i int) bool { return m&(1<<i) != 0 }
+			if b(5) && m>>6 != 0 {
+				continue // without a TLS config the remaining inputs do not exist
 			}
-		}
-		_ = portLeaf
-		leafIs := func(lit, what string) func(ssa.Value) bool {
-			return func(v ssa.Value) bool {
-				x, eq, l, ok := strCmp(v)
-				if !ok || eq || l != lit {
+			if b(6) && b(7) {
+				continue // no manager, no on-demand settings
+			}
+			var tlsObj, mgrObj, odObj *aobj
+			var site *aobj
+			env := &absEnv{globals: map[string]*aobj{}}
+			mk := func() []aval {
+				tlsObj, mgrObj, odObj = nil, nil, nil
+				site = &aobj{name: "site", typ: siteT, f: map[string]aval{}}
+				site.in = func(o *aobj, path string, t types.Type) aval {
+					switch path {
+					case "Addr.Host":
+						return asym{"Addr.Host"}
+					case "ListenHost":
+						return asym{"ListenHost"}
+					case "Addr.Scheme":
+						if b(4) {
+							return astr("http")
+						}
+						return astr("https")
+					case "Addr.Port":
+						if b(10) {
+							return astr("80")
+						}
+						return astr("443")
+					case "TLS":
+						if b(5) {
+							return anil{}
+						}
+						if tlsObj == nil {
+							tlsObj = &aobj{name: "tls", typ: ptrElem(t), f: map[string]aval{}}
+							tlsObj.in = func(o *aobj, path string, t types.Type) aval {
+								switch path {
+								case "Manager":
+									if b(6) {
+										return anil{}
+									}
+									if mgrObj == nil {
+										mgrObj = &aobj{name: "manager", typ: ptrElem(t), f: map[string]aval{}}
+										mgrObj.in = func(o *aobj, path string, t types.Type) aval {
+											if path == "OnDemand" {
+												if !b(7) {
+													return anil{}
+												}
+												if odObj == nil {
+													odObj = &aobj{name: "ondemand", typ: ptrElem(t), f: map[string]aval{}}
+												}
+												return aptr{odObj, ""}
+											}
+											return aunk{"manager field " + path}
+										}
+									}
+									return aptr{mgrObj, ""}
+								case "Manual":
+									return abool(b(8))
+								case "SelfSigned":
+									return abool(b(9))
+								case "ACMEEmail":
+									if b(11) {
+										return astr("off")
+									}
+									return astr("admin@example.com")
+								case "Managed":
+									return abool(false)
+								}
+								return aunk{"tls field " + path}
+							}
+						}
+						return aptr{tlsObj, ""}
+					}
+					return aunk{"site field " + path}
+				}
+				env.load(site, "TLS") // materialise the settings object even if the code under analysis never looks at it
+				return []aval{aslice{[]*aobj{site}}}
+			}
+			env.ext = func(callee string, args []aval) (aval, bool) {
+				key := ""
+				if len(args) > 0 {
+					if s, ok := args[len(args)-1].(asym); ok {
+						key = s.name
+					}
+				}
+				switch {
+				case strings.HasSuffix(callee, "casket.IsLoopback"):
+					switch key {
+					case "Addr.Host":
+						return abool(b(0)), true
+					case "ListenHost":
+						return abool(b(1)), true
+					}
+					return aunk{"IsLoopback of something that is not one of the site's hosts"}, true
+				case strings.HasSuffix(callee, "casket.IsInternal"):
+					switch key {
+					case "Addr.Host":
+						return abool(b(2)), true
+					case "ListenHost":
+						return abool(b(3)), true
+					}
+					return aunk{"IsInternal of something that is not one of the site's hosts"}, true
+				case strings.HasSuffix(callee, "certmagic.SubjectQualifiesForPublicCert"):
+					if key == "Addr.Host" {
+						return abool(b(12)), true
+					}
+					return aunk{"SubjectQualifiesForPublicCert of something that is not the site's host"}, true
+				}
+				return nil, false
+			}
+			desc := func() string {
+				var on []string
+				for i, n := range names {
+					if b(i) {
+						on = append(on, n)
+					}
+				}
+				return "{" + strings.Join(on, ", ") + "}"
+			}
+			want := !b(0) && !b(1) && !b(2) && !b(3) && !b(4) && !b(6) && (!b(8) || b(7)) && !b(9) && !b(10) && !b(11) && (b(12) || b(7))
+			env.runForks(fn, mk, func(_ aval, und string, forks int) bool {
+				nrun++
+				if und != "" {
+					bad = "inputs true: " + desc() + ": undecided — " + und
 					return false
 				}
-				if what == "Port" {
-					return isInvokeOf(x, "Port")
+				if b(5) {
+					return true
 				}
-				return readsField(x, what)
-			}
+				got, isB := env.load(tlsObj, "Managed").(abool)
+				if !isB || bool(got) != want {
+					bad = sprintf("inputs true: %s: Managed=%v, specification says %v", desc(), describeAval(env.load(tlsObj, "Managed")), want)
+					return false
+				}
+				return true
+			})
 		}
-		r.Check(returnsTrueOnlyVia(q, selfSigned, func(v ssa.Value) bool { u, ok := v.(*ssa.UnOp); return ok && u.Op == token.NOT && readsField(u.X, "SelfSigned") }), "R1", "caskettls.QualifiesForManagedTLS/requires:!SelfSigned", q.Pos(), "self-signed sites are never managed")
-		r.Check(returnsTrueOnlyVia(q, port80, leafIs("80", "Port")), "R1", "caskettls.QualifiesForManagedTLS/requires:Port!=\"80\"", q.Pos(), "a site declared on port 80 (the literal, whatever the configured HTTP port) is never managed")
-		r.Check(returnsTrueOnlyVia(q, emailOff, leafIs("off", "ACMEEmail")), "R1", "caskettls.QualifiesForManagedTLS/requires:ACMEEmail!=off", q.Pos(), "`tls off` sites are never managed")
-		manual, subj := false, false
-		allInstrs(q, func(in ssa.Instruction) {
-			if v, ok := in.(ssa.Value); ok && readsField(v, "Manual") {
-				manual = true
-			}
-			if c := callOf(in); c != nil && strings.HasSuffix(calleeName(c), "certmagic.SubjectQualifiesForPublicCert") {
-				if isInvokeOf(c.Args[0], "Host") {
-					subj = true
-				}
-			}
-		})
-		r.Check(manual && subj, "R1", "caskettls.QualifiesForManagedTLS/mentions:Manual,SubjectQualifies(Host)", q.Pos(), "manual certificates and non-certifiable subjects take part in the decision")
+		r.Check(bad == "", "R1", "httpserver.markQualifiedForAutoHTTPS/decision-table", fn.Pos(),
+			"a site is marked for managed HTTPS exactly when neither of its hosts is loopback or internal, its scheme is not http, and QualifiesForManagedTLS holds: TLS settings with a manager present, not manual unless on-demand, not self-signed, port not the literal 80, ACME e-mail not 'off', subject certifiable unless on-demand",
+			sprintf("%d input combinations evaluated", nrun), bad)
 	}
 	// tables
 	if in := h.fn("R1", "", "IsInternal"); in != nil {
